@@ -11,9 +11,16 @@ structure Good (a : Decimal) : Prop where
   nz : NZ a
   tm : Trimmed a
 
+/-- what the shifts need from their argument (no trimming required) -/
+structure Good0 (a : Decimal) : Prop where
+  wf : WF a
+  nz : NZ a
+
+theorem Good.toGood0 {a : Decimal} (h : Good a) : Good0 a := ⟨h.wf, h.nz⟩
+
 theorem two_zpow_pos' (e : ℤ) : (0 : ℚ) < 2 ^ e := by positivity
 
-theorem goL_spec : ∀ (fuel : Nat) (a : Decimal) (k : Nat), Good a → 1 ≤ a.nd → 1 ≤ k → k ≤ 60 * fuel →
+theorem goL_spec : ∀ (fuel : Nat) (a : Decimal) (k : Nat), Good0 a → 1 ≤ a.nd → 1 ≤ k → k ≤ 60 * fuel →
     ∃ b, Decimal.shift.goL 60 fuel a k = some b ∧ Good b ∧ 1 ≤ b.nd ∧ b.neg = a.neg ∧
       (b.trunc = false → a.trunc = false ∧ aval b = aval a * 2 ^ k) := by
   intro fuel
@@ -27,7 +34,7 @@ theorem goL_spec : ∀ (fuel : Nat) (a : Decimal) (k : Nat), Good a → 1 ≤ a.
       obtain ⟨b, hb, hwf, hnz, htm, hbnd, hneg, hval⟩ := leftShift_spec a hg.wf hg.nz hnd 60 (by norm_num) (by norm_num)
       rw [hb]
       simp only []
-      obtain ⟨c, hc, hgc, hcnd, hcneg, hcval⟩ := ih b (k - 60) ⟨hwf, hnz, htm⟩ hbnd (by omega) (by omega)
+      obtain ⟨c, hc, hgc, hcnd, hcneg, hcval⟩ := ih b (k - 60) ⟨hwf, hnz⟩ hbnd (by omega) (by omega)
       refine ⟨c, hc, hgc, hcnd, by rw [hcneg, hneg], fun htr => ?_⟩
       obtain ⟨t1, v1⟩ := hcval htr
       obtain ⟨t2, v2⟩ := hval t1
@@ -38,7 +45,7 @@ theorem goL_spec : ∀ (fuel : Nat) (a : Decimal) (k : Nat), Good a → 1 ≤ a.
       obtain ⟨b, hb, hwf, hnz, htm, hbnd, hneg, hval⟩ := leftShift_spec a hg.wf hg.nz hnd k hk1 (by omega)
       exact ⟨b, hb, ⟨hwf, hnz, htm⟩, hbnd, hneg, hval⟩
 
-theorem goR_spec : ∀ (fuel : Nat) (a : Decimal) (k : Nat), Good a → 1 ≤ a.nd → 1 ≤ k → k ≤ 60 * fuel →
+theorem goR_spec : ∀ (fuel : Nat) (a : Decimal) (k : Nat), Good0 a → 1 ≤ a.nd → 1 ≤ k → k ≤ 60 * fuel →
     Good (Decimal.shift.goR 60 fuel a k) ∧ 1 ≤ (Decimal.shift.goR 60 fuel a k).nd ∧ (Decimal.shift.goR 60 fuel a k).neg = a.neg ∧
       ((Decimal.shift.goR 60 fuel a k).trunc = false → a.trunc = false ∧ aval (Decimal.shift.goR 60 fuel a k) = aval a / 2 ^ k) := by
   intro fuel
@@ -50,7 +57,7 @@ theorem goR_spec : ∀ (fuel : Nat) (a : Decimal) (k : Nat), Good a → 1 ≤ a.
     by_cases hbig : k > 60
     · rw [if_pos hbig]
       obtain ⟨hwf, hnz, htm, hpos, hneg, hval⟩ := rightShift_spec a hg.wf 60 (by norm_num) (by norm_num)
-      obtain ⟨g2, nd2, neg2, val2⟩ := ih (rightShift a 60) (k - 60) ⟨hwf, hnz, htm⟩ (hpos hg.nz hnd) (by omega) (by omega)
+      obtain ⟨g2, nd2, neg2, val2⟩ := ih (rightShift a 60) (k - 60) ⟨hwf, hnz⟩ (hpos hg.nz hnd) (by omega) (by omega)
       refine ⟨g2, nd2, by rw [neg2, hneg], fun htr => ?_⟩
       obtain ⟨t1, v1⟩ := val2 htr
       obtain ⟨t2, v2⟩ := hval t1
@@ -61,17 +68,36 @@ theorem goR_spec : ∀ (fuel : Nat) (a : Decimal) (k : Nat), Good a → 1 ≤ a.
       obtain ⟨hwf, hnz, htm, hpos, hneg, hval⟩ := rightShift_spec a hg.wf k hk1 (by omega)
       exact ⟨⟨hwf, hnz, htm⟩, hpos hg.nz hnd, hneg, hval⟩
 
-/-- **`Shift(k)`** for `|k| ≤ 3840`: never panics, keeps the normal form, and when the `trunc` flag is off afterwards
-    it was off before and the value is exactly `a · 2^k` -/
-theorem shift_spec (a : Decimal) (hg : Good a) (k : ℤ) (hk1 : -3840 ≤ k) (hk2 : k ≤ 3840) :
-    ∃ b, a.shift k = some b ∧ Good b ∧ (1 ≤ a.nd → 1 ≤ b.nd) ∧ (a.nd = 0 → b = a) ∧ b.neg = a.neg ∧
+/-- right shifts of any size: the structure survives and the `trunc` flag only ever goes up -/
+theorem goR_any : ∀ (fuel : Nat) (a : Decimal) (k : Nat), Good0 a → 1 ≤ a.nd → 1 ≤ k →
+    Good0 (Decimal.shift.goR 60 fuel a k) ∧ 1 ≤ (Decimal.shift.goR 60 fuel a k).nd ∧ (Decimal.shift.goR 60 fuel a k).neg = a.neg ∧
+      ((Decimal.shift.goR 60 fuel a k).trunc = false → a.trunc = false) := by
+  intro fuel
+  induction fuel with
+  | zero => intro a k hg hnd _; exact ⟨hg, hnd, rfl, fun h => h⟩
+  | succ fuel ih =>
+    intro a k hg hnd hk1
+    simp only [Decimal.shift.goR]
+    by_cases hbig : k > 60
+    · rw [if_pos hbig]
+      obtain ⟨hwf, hnz, htm, hpos, hneg, hval⟩ := rightShift_spec a hg.wf 60 (by norm_num) (by norm_num)
+      obtain ⟨g2, nd2, neg2, tr2⟩ := ih (rightShift a 60) (k - 60) ⟨hwf, hnz⟩ (hpos hg.nz hnd) (by omega)
+      exact ⟨g2, nd2, by rw [neg2, hneg], fun h => (hval (tr2 h)).1⟩
+    · rw [if_neg hbig]
+      obtain ⟨hwf, hnz, htm, hpos, hneg, hval⟩ := rightShift_spec a hg.wf k hk1 (by omega)
+      exact ⟨⟨hwf, hnz⟩, hpos hg.nz hnd, hneg, fun h => (hval h).1⟩
+
+/-- **`Shift(k)`** for `|k| ≤ 3840`: never panics, keeps the normal form (and trims when it really shifts), and when the
+    `trunc` flag is off afterwards it was off before and the value is exactly `a · 2^k` -/
+theorem shift_spec (a : Decimal) (hg : Good0 a) (k : ℤ) (hk1 : -3840 ≤ k) (hk2 : k ≤ 3840) :
+    ∃ b, a.shift k = some b ∧ Good0 b ∧ (k ≠ 0 → 1 ≤ a.nd → Trimmed b) ∧ (1 ≤ a.nd → 1 ≤ b.nd) ∧ (a.nd = 0 → b = a) ∧ b.neg = a.neg ∧
       (b.trunc = false → a.trunc = false ∧ aval b = aval a * 2 ^ k) := by
   have hms : Gen.fpMaxShift = 60 := rfl
   simp only [Decimal.shift, hms]
   by_cases hz : a.nd = 0
   · have hb : (a.nd == 0) = true := by simpa using hz
     rw [if_pos hb]
-    refine ⟨a, rfl, hg, fun h => by omega, fun _ => rfl, rfl, fun htr => ⟨htr, ?_⟩⟩
+    refine ⟨a, rfl, hg, fun _ h => by omega, fun h => by omega, fun _ => rfl, rfl, fun htr => ⟨htr, ?_⟩⟩
     simp [aval, hz, val]
   · have hb : ¬ ((a.nd == 0) = true) := by simpa using hz
     have hnd : 1 ≤ a.nd := by omega
@@ -79,7 +105,7 @@ theorem shift_spec (a : Decimal) (hg : Good a) (k : ℤ) (hk1 : -3840 ≤ k) (hk
     by_cases hpos : k > 0
     · rw [if_pos hpos]
       obtain ⟨b, hbe, hgb, hbnd, hneg, hval⟩ := goL_spec 64 a k.toNat hg hnd (by omega) (by omega)
-      refine ⟨b, hbe, hgb, fun _ => hbnd, fun h => absurd h hz, hneg, fun htr => ?_⟩
+      refine ⟨b, hbe, hgb.toGood0, fun _ _ => hgb.tm, fun _ => hbnd, fun h => absurd h hz, hneg, fun htr => ?_⟩
       obtain ⟨t, v⟩ := hval htr
       refine ⟨t, ?_⟩
       rw [v, ← zpow_natCast, Int.toNat_of_nonneg (by omega)]
@@ -87,7 +113,7 @@ theorem shift_spec (a : Decimal) (hg : Good a) (k : ℤ) (hk1 : -3840 ≤ k) (hk
       by_cases hneg : k < 0
       · rw [if_pos hneg]
         obtain ⟨hgb, hbnd, hn, hval⟩ := goR_spec 64 a (-k).toNat hg hnd (by omega) (by omega)
-        refine ⟨_, rfl, hgb, fun _ => hbnd, fun h => absurd h hz, hn, fun htr => ?_⟩
+        refine ⟨_, rfl, hgb.toGood0, fun _ _ => hgb.tm, fun _ => hbnd, fun h => absurd h hz, hn, fun htr => ?_⟩
         obtain ⟨t, v⟩ := hval htr
         refine ⟨t, ?_⟩
         rw [v]
@@ -97,6 +123,6 @@ theorem shift_spec (a : Decimal) (hg : Good a) (k : ℤ) (hk1 : -3840 ≤ k) (hk
       · rw [if_neg hneg]
         have hk0 : k = 0 := by omega
         subst hk0
-        refine ⟨a, rfl, hg, fun h => h, fun _ => rfl, rfl, fun htr => ⟨htr, by simp⟩⟩
+        refine ⟨a, rfl, hg, fun h => absurd rfl h, fun h => h, fun _ => rfl, rfl, fun htr => ⟨htr, by simp⟩⟩
 
 end RJson.Dec
